@@ -106,10 +106,20 @@ def run_check(mod, tier: str, seed: int, budget_s: float | None = None, replay: 
     harness_errors = []
     n_viol = 0
     seen_known = Counter()
+    confirmed = 0
     for res in results:
         if not res["violations"]:
             continue
         case = res["case"]
+        confirmed += 1
+        if confirmed > 25:  # enough replays written; count the rest without re-execution
+            for v in res["violations"]:
+                key = v.get("key")
+                if key is not None and key in known:
+                    seen_known[key] += 1
+                elif not v.get("harness_error"):
+                    n_viol += 1
+            continue
         # determinism: re-run once in this process
         again = _worker((mod.__name__, case))
         first = sorted(jhash([v["what"], v.get("key")]) for v in res["violations"])
